@@ -175,7 +175,15 @@ def install(shim):
         _real[mod.__name__ + '.' + name] = real
 
         def w(*a, **kw):
-            rels = [shim.rel(x) for x in a[:nargs]]
+            dfd = kw.get('dir_fd')
+            if dfd is not None and a:
+                # fd-relative call (shutil.rmtree): name the entry by its real path
+                try:
+                    rels = [shim.rel(os.path.join(os.readlink('/proc/self/fd/%d' % dfd), os.fspath(a[0])))]
+                except OSError:
+                    rels = [None]
+            else:
+                rels = [shim.rel(x) for x in a[:nargs]]
             if shim.depth or all(r is None for r in rels):
                 return real(*a, **kw)
             if shim.step([label] + [r if r is not None else '<outside>' for r in rels]):
@@ -208,17 +216,20 @@ def install(shim):
     for name, n in (('rename', 2), ('replace', 2), ('remove', 1), ('unlink', 1), ('rmdir', 1), ('mkdir', 1),
                     ('truncate', 1), ('link', 2), ('symlink', 2)):
         wrap(os, name, 'X:os.' + name, n)
-    for name, n in (('copy', 2), ('copy2', 2), ('copyfile', 2), ('copytree', 2), ('rmtree', 1)):
+    for name, n in (('copy', 2), ('copy2', 2), ('copyfile', 2)):
         wrap(shutil, name, 'X:shutil.' + name, n)
-    if shim.exdev:
+    # shutil.copytree / shutil.rmtree are never ONE step: when tally calls them (or shutil.move falls back to them
+    # across devices) their mkdir / per-file copy / unlink / rmdir calls are recorded and interrupted one by one.
+    # (Inside a same-device shutil.move - one rename - nothing nested is recorded.)
+    if True:
         wrapped_rename = os.rename
 
         def x_rename(src, dst, *a, **kw):
             if not shim.depth and (shim.rel(src) is not None or shim.rel(dst) is not None):
                 raise OSError(errno.EXDEV, 'Invalid cross-device link')
             return wrapped_rename(src, dst, *a, **kw)
-        os.rename = x_rename
-        shutil.copytree = _real['shutil.copytree']      # not one step here: its mkdir / copyfile calls are the steps
+        if shim.exdev:
+            os.rename = x_rename
         real_copyfile = _real['shutil.copyfile']
 
         def x_copyfile(src, dst, *a, **kw):
